@@ -14,14 +14,22 @@ static bool g_last_left_empty;
 #define LIM (INT64_MAX / 4)
 #define RANGE (vx_self->lower_limit_ >= -LIM && vx_self->lower_limit_ <= LIM && vx_self->max_difference_ >= 0 && vx_self->max_difference_ <= LIM && \
                g_waiters >= 0 && g_waiters <= VX_BIG && g_orig >= 0 && g_orig <= g_waiters)
-/* rely: lower_limit_ never decreases (guarantee of signal); set_max_difference is a configuration call made while nobody waits */
+/* rely: other signal() calls never decrease lower_limit_; set_max_difference (a public member, callable at any time under the
+ * same lock) replaces BOTH max_difference_ and lower_limit_ by arbitrary values.  The wait units (U_WAIT / U_TRY_WAIT) are
+ * verified against both kinds of interference; the signal unit's guarantee ("never decreases") speaks about signal only. */
+#if defined(U_WAIT) || defined(U_TRY_WAIT)
+#define ENV_RECONFIGURES 1
+#else
+#define ENV_RECONFIGURES 0
+#endif
 #define MON_AT_RELEASE() do { \
     VX_ASSERT(vx_self->lower_limit_ >= g_cs_lower, "guarantee: lower_limit_ never decreases within a critical section"); \
     if (g_releases == 0) g_first_rel_lower = vx_self->lower_limit_; if (g_releases < 2) g_releases++; } while (0)
 #define MON_AT_ACQUIRE() do { \
     int64_t vx_old_lower = vx_self->lower_limit_; long vx_old_orig = g_orig; \
     vx_self->lower_limit_ = nondet_i64(); g_waiters = nondet_long(); g_orig = nondet_long(); \
-    VX_ASSUME(RANGE && vx_self->lower_limit_ >= vx_old_lower && g_orig <= vx_old_orig); \
+    if (ENV_RECONFIGURES) vx_self->max_difference_ = nondet_i64(); \
+    VX_ASSUME(RANGE && (ENV_RECONFIGURES || vx_self->lower_limit_ >= vx_old_lower) && g_orig <= vx_old_orig); \
     g_cs_lower = vx_self->lower_limit_; g_cs_maxdiff = vx_self->max_difference_; } while (0)
 #include "monitor.h"
 #define OWNS_P(l) ((l)->owns && (l)->m->held)
@@ -49,17 +57,18 @@ static bool cv_notify_one(struct cv *c, struct ulock l)
   return more;
 }
 #define VX_MAX(a, b) ((a) > (b) ? (a) : (b))
-#define W_FRAME vx_self->lower_limit_, g_waiters, g_orig, g_waits, g_releases, g_first_rel_lower, g_cs_lower, g_cs_maxdiff, l->owns, l->m->held
+#define W_FRAME vx_self->lower_limit_, vx_self->max_difference_, g_waiters, g_orig, g_waits, g_releases, g_first_rel_lower, g_cs_lower, g_cs_maxdiff, l->owns, l->m->held
 
 #ifdef U_WAIT
 //@FUNC
 void wait(struct ssem *self, struct ulock *l, int64_t upper_limit)
-__CPROVER_requires(self == vx_self && OWNS_P(l) && RANGE && g_upper == upper_limit && upper_limit >= -LIM && upper_limit <= LIM && g_waits == 0 && g_cs_lower == self->lower_limit_)
+__CPROVER_requires(self == vx_self && OWNS_P(l) && RANGE && g_upper == upper_limit && upper_limit >= -LIM && upper_limit <= LIM && g_waits == 0 && g_cs_lower == self->lower_limit_ && g_cs_maxdiff == self->max_difference_)
 /* returns only once the signalled lower bound is within the configured distance, in the current critical section */
-__CPROVER_ensures(OWNS_P(l) && !BLOCKED(upper_limit) && self->lower_limit_ == g_cs_lower)
+__CPROVER_ensures(OWNS_P(l) && RANGE && !BLOCKED(upper_limit) && self->lower_limit_ == g_cs_lower)
 /* a call that finds the bound within distance neither blocks nor changes anything */
 __CPROVER_ensures(!(upper_limit - __CPROVER_old(self->max_difference_) > __CPROVER_old(self->lower_limit_)) ==> (g_waits == 0 && self->lower_limit_ == __CPROVER_old(self->lower_limit_)))
-__CPROVER_ensures(self->max_difference_ == __CPROVER_old(self->max_difference_))
+/* wait itself never writes max_difference_ (it is the value found in the final critical section) */
+__CPROVER_ensures(self->max_difference_ == g_cs_maxdiff && (g_waits == 0 ==> self->max_difference_ == __CPROVER_old(self->max_difference_)))
 __CPROVER_assigns(W_FRAME)
 //@LIFT body
 #endif
@@ -67,10 +76,11 @@ __CPROVER_assigns(W_FRAME)
 #ifdef U_TRY_WAIT
 void wait(struct ssem *self, struct ulock *l, int64_t upper_limit)
 __CPROVER_requires(self == vx_self && OWNS_P(l) && RANGE && g_upper == upper_limit && upper_limit >= -LIM && upper_limit <= LIM && g_waits == 0 && g_cs_lower == self->lower_limit_)
-__CPROVER_ensures(OWNS_P(l) && !BLOCKED(upper_limit) && self->lower_limit_ == g_cs_lower)
+__CPROVER_ensures(OWNS_P(l) && RANGE && !BLOCKED(upper_limit) && self->lower_limit_ == g_cs_lower)
 /* a call that finds the bound within distance neither blocks nor changes anything */
 __CPROVER_ensures(!(upper_limit - __CPROVER_old(self->max_difference_) > __CPROVER_old(self->lower_limit_)) ==> (g_waits == 0 && self->lower_limit_ == __CPROVER_old(self->lower_limit_)))
-__CPROVER_ensures(self->max_difference_ == __CPROVER_old(self->max_difference_))
+/* wait itself never writes max_difference_ (it is the value found in the final critical section) */
+__CPROVER_ensures(self->max_difference_ == g_cs_maxdiff && (g_waits == 0 ==> self->max_difference_ == __CPROVER_old(self->max_difference_)))
 __CPROVER_assigns(W_FRAME)
 ;
 //@FUNC
